@@ -653,4 +653,20 @@ the test `tokenEndpoint` applies before it looks at a verifier -/
 theorem c12_go_pkce_allowed (c : OpenIDConnectClientConfig) :
     KM.Gen.GoOidc.ClientCanDoPKCEAuth c = ((clientOfGo c).secret == [], none) := rfl
 
+/-- the RFC 7636 §4.6 switch of `idpOpenIDCValidCodeVerifier`, as translated from the current tree (go2lean, tail
+block; SHA-256 + base64url is the parameter `s256`), is the model's `methodCheck`: absent/`plain` compare the verifier
+itself, `S256` its digest, any other method refuses -/
+theorem c12_go_method_check (cfg : Cfg) (p : keymasterdIDPCodeProtectedData) (verifier : List Char) :
+    KM.Gen.GoOidc.codeVerifierMethodCheck cfg.s256 p verifier =
+      methodCheck cfg ⟨p.CodeChallenge, p.CodeChallengeMethod⟩ verifier := by
+  unfold KM.Gen.GoOidc.codeVerifierMethodCheck methodCheck
+  dsimp only
+  by_cases h1 : p.CodeChallengeMethod = []
+  · simp [h1]
+  · by_cases h2 : p.CodeChallengeMethod = "plain".toList
+    · simp [h2]
+    · by_cases h3 : p.CodeChallengeMethod = "S256".toList
+      · simp [h3]
+      · simp [h1, h2, h3]
+
 end KM.Oidc
